@@ -846,6 +846,145 @@ Proof.
       apply (IH (mkR (bkt s) (refilled s) (Some cf) (limited s)) lim c now l k'); auto.
 Qed.
 
+
+(* ---------- reader mode: the resume clause holds on the model ---------- *)
+
+Lemma fired_mono d d' now : d <= d' -> fired d' now = true -> fired d now = true.
+Proof.
+  unfold fired, NS_PER_MS. intros Hle H. apply Z.leb_le in H. apply Z.leb_le.
+  assert ((d + 999999) / 1000000 <= (d' + 999999) / 1000000) by (apply Z.div_le_mono; lia). lia.
+Qed.
+
+(* model state vs. the monitor's bucket in effect: same bucket, and a pending refill sleep
+   means the bucket is empty and the sleep ends no later than its first positive refill *)
+Definition res_match (sb : option bucket) (s : rl) : Prop :=
+  bkt s = sb /\ wfr s /\
+  forall d, refilled s = Some d ->
+    exists b, sb = Some b /\ fill b <= 0 /\ d <= first_positive b.
+
+Lemma res_match_idle sb s : bkt s = sb -> wfr s -> refilled s = None -> res_match sb s.
+Proof. intros H1 H2 H3. split; [exact H1|]. split; [exact H2|]. intros d Hd. congruence. Qed.
+
+Definition mon_sb (sb : option bucket) (pd : option (option cfg)) (now : Z) : option bucket :=
+  match pd with
+  | None => sb
+  | Some cf => match from_config now cf with Ok b => b | _ => sb end
+  end.
+
+Lemma apply_pend_res sb s now :
+  res_match sb s -> res_match (mon_sb sb (pend s) now) (apply_pend s now) /\ pend (apply_pend s now) = None.
+Proof.
+  intros (Hb & W & Hd). unfold apply_pend, mon_sb.
+  destruct (pend s) as [cf|] eqn:Ep; [|split; [repeat split; auto|exact Ep]].
+  destruct (from_config_cases now cf) as [(e & He)|[He|(b & He & Wb & _)]]; rewrite He.
+  - split; [|reflexivity]. split; [exact Hb|]. split; [exact W|exact Hd].
+  - split; [|reflexivity]. split; [reflexivity|]. split; [exact I|]. intros d Hd'. discriminate Hd'.
+  - split; [|reflexivity]. split; [reflexivity|]. split; [exact Wb|]. intros d Hd'. discriminate Hd'.
+Qed.
+
+Lemma mon_resume_poll sb pd now a cap es o os :
+  mon_resume sb pd now (Poll a cap :: es) (o :: os) =
+  let sb1 := mon_sb sb pd now in
+  match o with
+  | OPoll None => pending_ok sb1 a now && mon_resume sb1 None now es os
+  | OPoll (Some n) =>
+      match sb1 with
+      | None => mon_resume None None now es os
+      | Some b => match consume b now n with
+                  | Ok (b', _) => mon_resume (Some b') None now es os
+                  | _ => true
+                  end
+      end
+  | _ => mon_resume sb1 None now es os
+  end.
+Proof. reflexivity. Qed.
+
+Lemma poll_core_res sb s now avail cap :
+  res_match sb s -> pend s = None ->
+  exists s' r, poll_core s now avail cap = Ok (s', r) /\ pend s' = None /\
+    match r with
+    | None => pending_ok sb avail now = true /\ res_match sb s'
+    | Some n =>
+        match sb with
+        | None => res_match None s'
+        | Some b => exists b', consume b now n = Ok (b', refilled s') /\ res_match (Some b') s'
+        end
+    end.
+Proof.
+  intros (Hb & W & Hd) Hp. unfold poll_core, pending_ok.
+  destruct (bkt s) as [b|] eqn:Eb; subst sb.
+  2:{ assert (M : res_match None s).
+      { split; [exact Eb|]. split; [exact W|]. intros d Hr. destruct (Hd d Hr) as (b0 & Hb0 & _). discriminate Hb0. }
+      exists s. destruct (avail =? 0) eqn:Ea.
+      - exists None. split; [reflexivity|]. split; [exact Hp|]. split; [reflexivity|exact M].
+      - exists (Some (Z.min avail cap)). split; [reflexivity|]. split; [exact Hp|exact M]. }
+  assert (M : res_match (Some b) s) by (split; [exact Eb|]; split; [exact W|exact Hd]).
+  unfold wfr in W. rewrite Eb in W.
+  destruct (match refilled s with Some d => negb (fired d now) | None => false end) eqn:Ew.
+  { exists s, None. split; [reflexivity|]. split; [exact Hp|]. split; [|exact M].
+    destruct (refilled s) as [d|] eqn:Er; [|discriminate].
+    destruct (Hd d eq_refl) as (b0 & Hb0 & Hf & Hle). injection Hb0 as <-.
+    apply orb_true_iff. right. apply andb_true_iff. split; [lia|].
+    apply negb_true_iff in Ew. apply negb_true_iff.
+    destruct (fired (first_positive b) now) eqn:E; [|reflexivity].
+    rewrite (fired_mono d _ now Hle E) in Ew. discriminate. }
+  destruct (avail =? 0) eqn:Ea.
+  { eexists _, None. split; [reflexivity|]. split; [reflexivity|]. split; [reflexivity|].
+    apply res_match_idle; [reflexivity|exact W|reflexivity]. }
+  rewrite (consume_eq b now _ W).
+  pose proof (cons_bucket_wfp b now (Z.min avail cap) W) as W'.
+  destruct (cons_result b now (Z.min avail cap)) as [d|] eqn:Ec.
+  - eexists _, (Some _). split; [reflexivity|]. split; [reflexivity|].
+    eexists. split; [cbn [refilled]; rewrite (consume_eq b now _ W), Ec; reflexivity|].
+    split; [reflexivity|]. split; [exact W'|].
+    intros d' Hd'. cbn [refilled] in Hd'. injection Hd' as <-. eexists. split; [reflexivity|].
+    destruct (deadline_is_first_positive b now _ d W Ec) as (h1 & _ & _ & h4 & _).
+    split; [exact h1|exact h4].
+  - eexists _, (Some _). split; [reflexivity|]. split; [reflexivity|].
+    eexists. split; [cbn [refilled]; rewrite (consume_eq b now _ W), Ec; reflexivity|].
+    apply res_match_idle; [reflexivity|exact W'|reflexivity].
+Qed.
+
+Lemma mon_resume_model es : forall s sb now os k,
+  res_match sb s -> run_reader s now es = Ok (os, k) ->
+  mon_resume sb (pend s) now es os = true.
+Proof.
+  induction es as [|e es IH]; intros s sb now os k M; cbn [run_reader].
+  - intros [= <- _]. reflexivity.
+  - destruct e as [dt|n|a cap|cf].
+    + destruct (run_reader s (now + dt) es) as [[l k']|e'|] eqn:R; try discriminate.
+      intros [= <- _]. cbn [mon_resume]. eapply IH; eauto.
+    + destruct (run_reader s now es) as [[l k']|e'|] eqn:R; try discriminate.
+      intros [= <- _]. cbn [mon_resume]. eapply IH; eauto.
+    + rewrite poll_split.
+      destruct (apply_pend_res sb s now M) as [M1 P1].
+      destruct (poll_core_res _ _ now a cap M1 P1) as (s' & r & -> & P' & Hr).
+      destruct (run_reader s' now es) as [[l k']|e'|] eqn:R; try discriminate.
+      intros [= <- _]. rewrite mon_resume_poll. cbv zeta.
+      destruct r as [n|].
+      * destruct (mon_sb sb (pend s) now) as [b|].
+        -- destruct Hr as (b' & -> & M'). rewrite <- P'. eapply IH; eauto.
+        -- rewrite <- P'. eapply IH; eauto.
+      * destruct Hr as [Hpo M']. rewrite Hpo. cbn [andb]. rewrite <- P'. eapply IH; eauto.
+    + destruct (run_reader (mkR (bkt s) (refilled s) (Some cf) (limited s)) now es)
+        as [[l k']|e'|] eqn:R; try discriminate.
+      intros [= <- _]. cbn [mon_resume].
+      apply (IH (mkR (bkt s) (refilled s) (Some cf) (limited s)) sb now l k'); auto.
+Qed.
+
+(* the clause on one poll observed Pending, in words *)
+Lemma pending_ok_spec sb avail now :
+  pending_ok sb avail now = true <->
+  avail = 0 \/ exists b, sb = Some b /\ fill b <= 0 /\ fired (first_positive b) now = false.
+Proof.
+  unfold pending_ok. rewrite orb_true_iff. split.
+  - intros [H|H]; [left; lia|right]. destruct sb as [b|]; [|discriminate].
+    apply andb_prop in H as [h1 h2]. exists b. split; [reflexivity|]. split; [lia|].
+    now apply negb_true_iff.
+  - intros [H|(b & -> & h1 & h2)]; [left; lia|right]. apply andb_true_iff. split; [lia|].
+    now apply negb_true_iff.
+Qed.
+
 (* ---------- the model satisfies the monitor for every input ---------- *)
 
 Lemma model_monitor i : monitor i (model i) = true.
@@ -865,13 +1004,17 @@ Proof.
     destruct (from_config_cases 0 cf) as [(e & Hc)|[Hc|(b & Hc & Wb & _)]]; rewrite Hc.
     + reflexivity.
     + destruct (run_reader_ok es (mkR None None None 0) 0 I) as ([l k] & R). rewrite R.
-      unfold lim_of. rewrite Hc.
-      apply (mon_reader_model es (mkR None None None 0) None 0 0 l k); auto; exact I.
+      unfold lim_of. rewrite Hc. apply andb_true_iff. split.
+      * apply (mon_reader_model es (mkR None None None 0) None 0 0 l k); auto; exact I.
+      * apply (mon_resume_model es (mkR None None None 0) None 0 l k); [|exact R].
+        apply res_match_idle; [reflexivity|exact I|reflexivity].
     + destruct (run_reader_ok es (mkR (Some b) None None 0) 0 Wb) as ([l k] & R). rewrite R.
       destruct (lim_of 0 cf) as [lim'|e|] eqn:EL;
         try (unfold lim_of in EL; rewrite Hc in EL; discriminate).
-      destruct (fresh_match 0 cf b Hs Hc lim' EL) as [M _].
-      apply (mon_reader_model es (mkR (Some b) None None 0) lim' 0 0 l k); auto. exact I.
+      destruct (fresh_match 0 cf b Hs Hc lim' EL) as [M _]. apply andb_true_iff. split.
+      * apply (mon_reader_model es (mkR (Some b) None None 0) lim' 0 0 l k); auto. exact I.
+      * apply (mon_resume_model es (mkR (Some b) None None 0) (Some b) 0 l k); [|exact R].
+        apply res_match_idle; [reflexivity|exact Wb|reflexivity].
 Qed.
 
 (* ---------- the rate bound in readable form (single limit, no live change) ---------- *)
@@ -985,7 +1128,7 @@ Proof.
     rewrite He in Hc; try discriminate. injection Hc as ->.
   pose proof W as (Hr & _).
   assert (Hpns : ms (period b) * NS_PER_MS = PER100) by (rewrite HP; vm_compute; reflexivity).
-  rewrite Hpns in Hmon.
+  rewrite Hpns in Hmon. apply andb_prop in Hmon as [Hmon _].
   pose proof (mon_reader_bound es os 0 (bmax b) (refill b) PER100 0 0 Hs Hes Hnr
                 ltac:(vm_compute; reflexivity) Hr Hmon ltac:(lia)) as Hb.
   replace (0 + elapsed es - 0) with (elapsed es) in Hb by ring.
